@@ -447,8 +447,8 @@ def oracle_c12(case, reply):
     if ws[0] != "fields":
         return []
     mode, nf = ws[1], int(ws[2])
-    fs = [(ws[3 + 3 * i][1:], ws[4 + 3 * i], ws[5 + 3 * i] == "1") for i in range(nf)]
-    args = ws[3 + 3 * nf:]
+    fs = [(ws[3 + 4 * i][1:], ws[4 + 4 * i], ws[5 + 4 * i] == "1", ws[6 + 4 * i] == "1") for i in range(nf)]
+    args = ws[3 + 4 * nf:]
 
     def pick(a):
         if a == "?":
@@ -463,12 +463,17 @@ def oracle_c12(case, reply):
         want = "err toomany"
     elif mode == "struct" and args == ["=*"]:
         sel = [f for f in fs if not f[2] and f[0] != "_"]
+        if any(f[3] for f in sel):
+            want = "err hidden"      # an unexported field of another package's struct cannot be set
     else:
         sel = []
         for a in args:
             r = pick(a)
             if isinstance(r, str):
                 want = "err " + r
+                break
+            if mode == "struct" and r[3]:
+                want = "err hidden"
                 break
             sel.append(r)
     if want is None:
